@@ -196,6 +196,47 @@ def run(ctx):
         compare_docs(s, case, ok, doc, ml)
     streams.append(s)
 
+    # 2b. one hub / middleware name in front of different analysers: the sender *name* is the same, the model token sits
+    # in a later component or field; messages of the different models and of unknown models follow each other in one
+    # process and each must be rendered with its own schemas
+    from harness.props import C17
+    hub = Stream("same-sender-different-models")
+    toks = C17.tokens()
+    seq = []
+    for _ in range(40 if ctx.thorough else 6):
+        module = r.choice(mods)
+        head = C17.hub_header(module, r.choice(toks[module]["tokens"]))
+        if head is None:
+            continue
+        seq.append(("generic", C17.hub_header("generic")))
+        seq.append((module, head))
+    lines, pend = [], []
+    for module, head in seq:
+        if C17.expected_module(head) != module:
+            continue
+        mapping = {l: schemaio.real_class(module, l) for l in specs_by_mod[module]}
+        hframe = gens.frame(1, head.encode("latin-1"), True)
+        frames, meta = gen_messages(r, module, specs_by_mod[module], hframe)
+        if meta["violating"]:
+            continue
+        ok, doc = impl_doc(frames)
+        case = {"module": module, "frames": [hexb(f) for f in frames], "sequence_position": len(pend)}
+        hub.case(case, nontrivial=True)
+        hub.count(module)
+        if not ok:
+            hub.fail(dict(case, error=doc), "json rendering of schema-conformant records raised %s (message of %s behind the "
+                     "shared sender name)" % (doc, module), "same-sender/raises")
+        else:
+            bad = declarative_check(frames, doc, mapping)
+            if bad:
+                hub.fail(case, "message of %s behind the shared sender name: %s" % (module, bad[1]), "same-sender/" + bad[0])
+        lines.append("tojson %s %s" % (codecio.cps("0"), " ".join(hexb(f) for f in frames)))
+        pend.append((case, ok, doc))
+    model = common.drive(lines) if ctx.driver_ok else [None] * len(lines)
+    for (case, ok, doc), ml in zip(pend, model):
+        compare_docs(hub, case, ok, doc, ml)
+    streams.append(hub)
+
     # 3. format names through the receiver
     f = Stream("format-dispatch")
     frames = dump_frames("sysmex_xn550.txt")
